@@ -163,6 +163,18 @@ var pool = []pval{
 	// stdlib values
 	{"time", func(*env) ugo.Object { return &ugotime.Time{Value: leapTime} }},
 	{"location", func(*env) ugo.Object { return &ugotime.Location{Value: gotime.FixedZone("Y", -7200)} }},
+	// values whose own marshalling FAILS (error paths of the callers): a time outside the year range
+	// MarshalJSON / MarshalText accept, raw JSON messages that are not JSON, and such values nested
+	{"time-far", func(*env) ugo.Object { return &ugotime.Time{Value: farTime} }},
+	{"time-year10000", func(*env) ugo.Object { return &ugotime.Time{Value: gotime.Date(10000, 1, 1, 0, 0, 0, 0, gotime.UTC)} }},
+	{"raw-valid", func(*env) ugo.Object { return &ugojson.RawMessage{Value: []byte(`{"a":1}`)} }},
+	{"raw-invalid", func(*env) ugo.Object { return &ugojson.RawMessage{Value: []byte(`{`)} }},
+	{"a-raw-invalid", func(*env) ugo.Object {
+		return ugo.Array{ugo.Int(1), ugo.Map{"k": &ugojson.RawMessage{Value: []byte(`x`)}}, &ugotime.Time{Value: farTime}}
+	}},
+	{"encopts-raw-invalid", func(*env) ugo.Object {
+		return &ugojson.EncoderOptions{Value: &ugojson.RawMessage{Value: []byte(`[1,`)}, Quote: true, EscapeHTML: true}
+	}},
 	{"scanArg", func(*env) ugo.Object {
 		o, err := ugofmt.Module["ScanArg"].(*ugo.Function).Value(ugo.String("int"))
 		if err != nil || o == nil {
